@@ -291,6 +291,9 @@ func funcName(f *ssa.Function) string {
 		return "<nil>"
 	}
 	s := f.String()
+	if !inModule(f) && f.Origin() != nil {
+		s = libName(f)
+	}
 	s = strings.ReplaceAll(s, modPath+"/", "")
 	if a, ok := aliasOf[f]; ok && strings.HasSuffix(s, "."+f.Name()) {
 		s = strings.TrimSuffix(s, f.Name()) + a
